@@ -749,7 +749,7 @@ func TestC06(t *testing.T) {
 				case 1:
 					rows = append(rows, row{k, []string{"1", "2"}, "num"})
 				case 2:
-					rows = append(rows, row{k, []string{"{p: 1, q: x}", "{p: 2, q: y}"}, "obj"})
+					rows = append(rows, row{k, []string{"{p: 1, q: x}", "{p: 2, q: y, r: z}"}, "obj"}) // r: a member only the later value has
 				default:
 					rows = append(rows, row{k, []string{"[1, 2]", "[3]"}, "arr"})
 				}
@@ -770,7 +770,7 @@ func TestC06(t *testing.T) {
 				case "num":
 					uses = append(uses, "matrix."+rw.key+" > 1", "matrix."+rw.key)
 				case "obj":
-					uses = append(uses, "matrix."+rw.key+".p", "matrix."+rw.key+".q == 'x'", "toJSON(matrix."+rw.key+")")
+					uses = append(uses, "matrix."+rw.key+".p", "matrix."+rw.key+".q == 'x'", "toJSON(matrix."+rw.key+")", "matrix."+rw.key+".r", "matrix."+rw.key+".r")
 				case "labels":
 					uses = append(uses, "matrix."+rw.key+"[0]", "join(matrix."+rw.key+", ',')", "contains(matrix."+rw.key+", 'linux')")
 				case "arr":
